@@ -681,13 +681,30 @@ class BuiltinsMixin:
         self.check_hashable(k)
         v = self.dict_get(d, k)
         if self.branch(v == smt.ABSENT):
-            f = smt.simp(z3.Select(self.attr_array('$factory'), Val.r(d)))
-            if smt.tag_of(f) == 'none':
-                self.raise_new('KeyError', k)
-            nv = self.call(f, [], {})
+            inner = self.ddict_factory.get(smt.simp(d).get_id())
+            if inner is not None:
+                nv = self.make_by_spec(inner)
+            else:
+                f = smt.simp(z3.Select(self.attr_array('$factory'), Val.r(d)))
+                if smt.tag_of(f) == 'none':
+                    self.raise_new('KeyError', k)
+                nv = self.call(f, [], {})
             self.dict_set(d, k, nv)
             return nv
         return v
+
+    def make_by_spec(self, spec: str):
+        """what the (assumed) factory of a typed defaultdict field builds: an empty container of that spec"""
+        if spec.startswith('ddict['):
+            nv = self.bi_defaultdict([smt.NONE], {})
+            self.ddict_factory[smt.simp(nv).get_id()] = spec[6:-1]
+            self.container_elem_type[smt.simp(nv).get_id()] = spec[6:-1]
+            return nv
+        if spec.startswith('list'):
+            return self.mk_list([])
+        if spec.startswith('dict'):
+            return self.mk_dict([])
+        self.unsupported(f'defaultdict factory for {spec}')
 
     def bb_dict_copy(self, d, args, kwargs):
         return self.dict_copy(d)
@@ -749,11 +766,15 @@ class BuiltinsMixin:
             i = smt.const_int(args[0])
             if i != 0:
                 self.unsupported('list.pop(i) with i != 0')
-            v = smt.simp(s[0])
-            self.set_seq(l, smt.simp(z3.Extract(s, z3.IntVal(1), n - 1)))
+            v = self.elem(s, z3.IntVal(0))
+            rest = smt.simp(z3.Extract(s, z3.IntVal(1), n - 1))
         else:
-            v = smt.simp(s[n - 1])
-            self.set_seq(l, smt.simp(z3.Extract(s, z3.IntVal(0), n - 1)))
+            v = self.elem(s, smt.simp(n - 1))
+            rest = smt.simp(z3.Extract(s, z3.IntVal(0), n - 1))
+        et = self.seq_elem_type.get(smt.simp(s).get_id())
+        if et is not None:
+            self.seq_elem_type[rest.get_id()] = et          # what is left holds elements of the same type
+        self.set_seq(l, rest)
         self.bound_ref(v)
         return v
 
